@@ -268,6 +268,9 @@ class Analyzer(ExprMixin):
         self.comments = parser.comments
         for raw, prob, line in parser.bad_idents:
             self.unit = "file"
+            if prob == "reserved_2008_only":
+                d.notes.append(("reserved_2008_only", raw, line))
+                continue
             self.error("S-ident", f"illegal identifier {raw}", line, name=prob)
         try:
             for u in units:
